@@ -93,6 +93,7 @@ def check(run):
         if rnd > 0 and rng.random() < 0.5:
             plan = world.rand_plan(rng, keys, max_segments=3) + [("delete", [keys[-1]])]
         for cfg in configs(rng, quick):
+            cfg = dict(cfg, groups=True)       # the first documents of every commit form nested groups
             w = cworld.CWorld(cfg, variant=rnd)
             try:
                 try:
@@ -106,7 +107,8 @@ def check(run):
                 rd = w.reader()
                 try:
                     idx = cworld.abstract_index(rd, adocs)
-                    obs = cworld.dump(rd, idx, w.schema, rng=rng, maxterms=10 if quick else 25, plan=plan)
+                    obs = cworld.dump(rd, idx, w.schema, rng=rng, maxterms=10 if quick else 25, plan=plan,
+                                      groups=w.groups)
                     run.count(len(obs))
                 finally:
                     rd.close()
@@ -120,6 +122,31 @@ def check(run):
                                                         "err": type(ex).__name__, "msg": str(ex)[:160],
                                                                 "where": content.where(ex)}],
                           "cfg": {"view": "BufferedWriter round trip"}, "plan": None, "adocs": adocs})
+    # hierarchical documents: many groups (with nested groups) in one large commit through each front-end
+    for gi in range(2 if quick else 10):
+        keys = ["g%d" % i for i in range(rng.randrange(14, 26))]
+        adocs = dict((k, cworld.rand_adoc(rng, k)) for k in keys)
+        plan = [("commit", keys, {"merge": False}), ("delete", [keys[3]])]
+        for fe in ({"frontend": "plain"}, {"frontend": "mp", "procs": 2, "batchsize": 2, "multisegment": False},
+                   {"frontend": "mp", "procs": 3, "batchsize": 4, "multisegment": False},
+                   {"frontend": "mp", "procs": 2, "batchsize": 3, "multisegment": True}):
+            cfg = dict(fe, storage="file", compound=True, groups="many")
+            w = cworld.CWorld(cfg, variant=gi)
+            try:
+                try:
+                    w.run(adocs, plan)
+                    with w.reader() as rd:
+                        idx = cworld.abstract_index(rd, adocs)
+                        obs = cworld.dump(rd, idx, w.schema, rng=rng, maxterms=5, plan=plan, groups=w.groups)
+                        run.count(len(obs))
+                    cases.append({"idx": idx, "obs": obs, "cfg": cfg, "plan": plan, "adocs": adocs, "variant": gi})
+                except Exception as ex:
+                    cases.append({"idx": {"docs": []}, "obs": [{"kind": "error", "path": "building the index",
+                                                                "err": type(ex).__name__, "msg": str(ex)[:160],
+                                                                "where": content.where(ex)}],
+                                  "cfg": cfg, "plan": plan, "adocs": adocs})
+            finally:
+                w.close()
     rejects = content.judge(run, cases)
     content.report(run, "c18", cases, rejects)
     run.extra["configurations"] = len(cases)
